@@ -838,7 +838,11 @@ where
                 // give up our personal token while we wait for the lock to
                 // be released; but we should never run ensure_token() while
                 // holding a lock, or we could cause deadlocks.
-                server.release_mine()?;
+                // (after wait_all() we may not hold one: the top level gives
+                // its own token back for the self-check.)
+                if server.has_token() {
+                    server.release_mine()?;
+                }
                 lock.wait_lock(LockType::Exclusive)?;
                 // now t is definitely free, so we get to decide whether
                 // to build it.
